@@ -137,6 +137,8 @@ def run_c17(ctx):
     trace = ctx.path("trace_path.ndjson")
     r = ctx.run_bin("dv", ["record-path", "-schemas", schemas, "-n", str(npaths), "-trace", trace], timeout=900)
     rstat = json.loads(r.stdout.strip().splitlines()[-1])
+    if rstat["uncompilable"] * 5 > nrand:
+        raise Infra(f"{rstat['uncompilable']} of {nrand} sampled schemas do not compile")
     fails, events = validate_trace(ctx, "SchemaPathTrace", trace, schemas)
     if events != rstat["events"]:
         raise Infra("event count mismatch")
@@ -147,7 +149,7 @@ def run_c17(ctx):
         ev["at"] = 0 if ev["ok"] else 1
     selftest_trace(ctx, "SchemaPathTrace", trace, schemas, corrupt)
     for f in fails:
-        sig = path_sig("trace", f["wantok"], f["wantat"], f["gotok"], f["gotat"], f["ph"].replace("accept:", "end:"), f["inc"])
+        sig = path_sig("trace", f["wantok"], f["wantat"], f["gotok"], f["gotat"], f["ph"], f["inc"])
         ctx.disagree(sig, f"path {f['p']} (schema {f['sid']}, incomplete allowed={f['inc']}): spec "
                      + ("accepts" if f["wantok"] else f"rejects at element {f['wantat']}") + ", code "
                      + ("accepts" if f["gotok"] else f"blames element {f['gotat']} {f['gottok']!r}"),
@@ -169,7 +171,7 @@ def run_c17(ctx):
                     "over {all node names incl. choice/case, valid value, invalid value, unknown}, both modes; distinct = (shape, path) with >= 2 tokens; "
                     "trace: seeded random walks with one-token corruptions and over-long tails on TLC-sampled schemas and the shapes",
                samples=samples, shapes=len(PATH_SHAPES), vectors=nvec, replay_evaluations=stat["evaluations"], trace_events=events,
-               sampled_schemas=nrand, unjudged=dict(empty_path=1), bounds=dict(MaxLen=maxlen, Ext=ext_gen, ExtMC=ext_mc),
+               sampled_schemas=nrand, unjudged=dict(empty_path=1, sampled_schemas_refused_by_compiler=rstat["uncompilable"]), bounds=dict(MaxLen=maxlen, Ext=ext_gen, ExtMC=ext_mc),
                exhaustive=True,
                explanation="TLC explored the walk machine on every token sequence that keeps the walk alive (plus Ext tokens past a rejection) for 12 schema shapes "
                            "and checked it against the recursive definition, the prefix characterisation of 'first offending' and the generated language; "
@@ -241,7 +243,7 @@ def run_c18(ctx):
     q = ctx.quick()
     me, ml = 3, 3
     wide = [5, 7, 12, 15] if q else [s for s in DATA_SHAPES if s != 11]     # shapes explored with 3 list entries (the others with 2)
-    nrand, nmut = (300, 4) if q else (2000, 6)
+    nrand, nmut = (600, 4) if q else (2000, 6)
     ctx.tlc("DataValidateMC", "DataValidateMC.cfg", workers=12, timeout=2400, heap="12g",
             consts={"Shapes": set_lit(DATA_SHAPES), "MaxEntries": me, "Wide": set_lit(wide), "MaxLL": ml})
     g = ctx.tlc("DataValidateGen", "DataValidateGen.cfg", workers=13, timeout=2400, heap="12g",
@@ -279,6 +281,8 @@ def run_c18(ctx):
     trace, schemas = ctx.path("trace_data.ndjson"), ctx.path("schemas_data.ndjson")
     r = ctx.run_bin("dv", ["record-data", "-cases", os.path.join(d, "dvrand.ndjson"), "-mut", str(nmut), "-trace", trace, "-schemas", schemas], timeout=900)
     rstat = json.loads(r.stdout.strip().splitlines()[-1])
+    if rstat["uncompilable"] * 5 > nrand:
+        raise Infra(f"{rstat['uncompilable']} of {nrand} sampled schemas do not compile")
     fails, events = validate_trace(ctx, "DataValidateTrace", trace, schemas)
     if events != rstat["events"]:
         raise Infra("event count mismatch")
@@ -306,7 +310,7 @@ def run_c18(ctx):
                     "choice, no empty list / leaf-list / non-presence container); distinct = trees with at least one violation + trees that gain at least one default; "
                     "trace: TLC-sampled schema/data pairs and harness-made seeded mutations (node deleted, entry duplicated, value appended)",
                samples=samples, shapes=len(DATA_SHAPES), replay_evaluations=stat["evaluations"], trees_with_violations=stat["with_violations"],
-               trees_with_defaults_added=stat["with_defaults_added"], trace_events=events, sampled_pairs=nrand,
+               trees_with_defaults_added=stat["with_defaults_added"], trace_events=events, sampled_pairs=nrand, unjudged=dict(sampled_schemas_refused_by_compiler=rstat["uncompilable"]),
                bounds=dict(MaxEntries=me, shapes_with_MaxEntries=wide, others=2, MaxLL=ml), exhaustive=True,
                explanation="TLC checked Decorate o Decorate = Decorate, explicit data kept, only defaults added, verdict unchanged by decoration on every tree; "
                            "generated per tree the violation set and the decorated tree; the real ValidateSchema / AddDefaults (applied once and twice) were "
